@@ -128,7 +128,8 @@ PROPS["C13"] = {
 
 PROPS["C19"] = {
     "harness": {"kind": "cmd", "cmd": "c19"},
-    "level_text": "Theorems: the request is accepted iff the hash list is non-empty and every entry is 64 hex digits, the amount is a decimal integer in [1, 2^64), and block number and decay timestamps are positive; a rejected request forwards nothing; for every accepted request the forwarded values are the request's own and the joined hash string splits back into exactly the request's hashes in order (join/split round trip, needs only that hex strings contain no comma); boundary amounts 2^64-1 / 2^64 / 0 / signed. Rendering of commitments is field-wise lowercase hex (injective by C02's hex lemma). Tied to the real Service.SendBid with the real protovalidate validator: boundary tables for amounts (signs, spaces, newline, unicode digits, leading zeros, overflow), hash lists (lengths 63/64/65, non-hex, embedded comma/newline, empty), all sign/zero/min-int64 combinations of the three numbers, random requests, and commitments with arbitrary contents and several differing commitments per bid.",
+    "extra_harnesses": [{"cmd": "nodewire", "tag": "nodewire"}],
+    "level_text": "Theorems: the request is accepted iff the hash list is non-empty and every entry is 64 hex digits, the amount is a decimal integer in [1, 2^64), and block number and decay timestamps are positive; a rejected request forwards nothing; for every accepted request the forwarded values are the request's own and the joined hash string splits back into exactly the request's hashes in order (join/split round trip, needs only that hex strings contain no comma); boundary amounts 2^64-1 / 2^64 / 0 / signed. Rendering of commitments is field-wise lowercase hex (injective by C02's hex lemma). Tied to the real Service.SendBid with the real protovalidate validator: boundary tables for amounts (signs, spaces, newline, unicode digits, leading zeros, overflow), hash lists (lengths 63/64/65, non-hex, embedded comma/newline, empty), all sign/zero/min-int64 combinations of the three numbers, random requests, and commitments with arbitrary contents and several differing commitments per bid. Whole node: the scenarios of harness/cmd/nodewire (two real nodes built by node.NewNode against a scripted JSON-RPC chain node, driven through their gRPC APIs: stake / allowance present or not, engine accepts or rejects, well-formed or malformed request) are part of this check and are judged by Model/Wiring.",
     "level_note": "Trusted: Lean kernel; harness; protovalidate/CEL evaluation (the rules are modelled as Lean predicates and compared on every case, including the runtime-error cases of uint()); strings.Join/Split.",
     "nontrivial_rule": "distinct (tag, accepted?, number of hashes, number of commitments) cells",
     "class_of": lambda c, r: "%s/%d/%d" % (r["model"].get("status"), len(c["in"]["txhashes"]), len(c["in"]["commits"] or [])),
@@ -162,7 +163,8 @@ PROPS["C12"] = {
 
 PROPS["C01"] = {
     "harness": {"kind": "cmd", "cmd": "handlebid"},
-    "level_text": "Theorem for every environment and every schedule (universally quantified event lists: hand-off, decisions for this or another digest with any status value, deadline, cancellation, in any order, plus every combination of gate outcomes and of sign/store/write faults): any effect (commitment signature, settlement submission, commitment message) implies peer role = bidder, bid read, verified, funded, well-formed and an ACCEPTED decision naming this bid's digest before any deadline/cancellation; effects are always a prefix of sign, store, write; in every other case no effect and an error or nothing. The handler is composed with the provider service's registration/hand-off/decision semantics. Tied to the real handleBid wired to the real preconfsigner (counting key signer), the real bidder-registry wrapper, the real provider Service with real protovalidate (the harness plays the engine on both gRPC streams), the real preconf-contract wrapper and a scripted stream: every single gate failure, every engine behaviour (reject, status 0/3, wrong digest, duplicates, silence, never taken, accept after deadline/cancel), faults, and random cells of the full matrix. Every gate of the model's environment is evaluated by the Lean models of the components (C02 signer with go-ethereum primitive answers, C11 registry decode, C12 format rules).",
+    "extra_harnesses": [{"cmd": "nodewire", "tag": "nodewire"}],
+    "level_text": "Theorem for every environment and every schedule (universally quantified event lists: hand-off, decisions for this or another digest with any status value, deadline, cancellation, in any order, plus every combination of gate outcomes and of sign/store/write faults): any effect (commitment signature, settlement submission, commitment message) implies peer role = bidder, bid read, verified, funded, well-formed and an ACCEPTED decision naming this bid's digest before any deadline/cancellation; effects are always a prefix of sign, store, write; in every other case no effect and an error or nothing. The handler is composed with the provider service's registration/hand-off/decision semantics. Tied to the real handleBid wired to the real preconfsigner (counting key signer), the real bidder-registry wrapper, the real provider Service with real protovalidate (the harness plays the engine on both gRPC streams), the real preconf-contract wrapper and a scripted stream: every single gate failure, every engine behaviour (reject, status 0/3, wrong digest, duplicates, silence, never taken, accept after deadline/cancel), faults, and random cells of the full matrix. Every gate of the model's environment is evaluated by the Lean models of the components (C02 signer with go-ethereum primitive answers, C11 registry decode, C12 format rules). Whole node: the scenarios of harness/cmd/nodewire (two real nodes built by node.NewNode against a scripted JSON-RPC chain node, driven through their gRPC APIs: stake / allowance present or not, engine accepts or rejects, well-formed or malformed request) are part of this check and are judged by Model/Wiring.",
     "level_note": "Trusted: Lean kernel; harness; the 5 s deadline is emulated by cancelling the parent context (real-time behaviour of context.WithTimeout is sampled in the thorough tier only; its literal duration is regenerated from the source); decisions arriving before the engine took the bid are covered by the model and by C12's in-package harness, not forced here.",
     "nontrivial_rule": "distinct (tag, gate vector, schedule class, model observation) cells",
     "class_of": lambda c, r: "%s|%s" % (c["in"]["tag"], json.dumps(r.get("model"), sort_keys=True)),
@@ -207,8 +209,9 @@ def canon(x):
 
 PROPS["C05"] = {
     "harness": {"kind": "cmd", "cmd": "sendbid"},
+    "extra_harnesses": [{"cmd": "nodewire", "tag": "nodewire"}],
     "agree": _c05_agree,
-    "level_text": "Theorems for every number of providers, every reply behaviour and every arrival order (any duplicate-free order of the per-provider goroutines; order independence proved as a permutation statement): every delivered commitment passed VerifyPreConfirmation, carries as provider address the recovered signer (C02 characterisation instantiated: digest = commitment hash over the sent bid, recover + low-S), and embeds exactly the bid this call sent; a commitment for a different valid bid (the provider's own or a replayed one) is never surfaced; at most one delivery per provider; the number of deliveries never exceeds the channel capacity, so no sender blocks and the closer runs once all goroutines returned. Tied to the real SendBid with the real preconfsigner over a scripted topology/streamer: 0..8 providers, 17 reply classes incl. different-valid-bid, replayed bid, foreign/invalid/short signatures, missing parts, error frames, garbage, silence, reset, open/write failures, forced arrival orders, deadline on or off; goroutine count sampled after completion.",
+    "level_text": "Theorems for every number of providers, every reply behaviour and every arrival order (any duplicate-free order of the per-provider goroutines; order independence proved as a permutation statement): every delivered commitment passed VerifyPreConfirmation, carries as provider address the recovered signer (C02 characterisation instantiated: digest = commitment hash over the sent bid, recover + low-S), and embeds exactly the bid this call sent; a commitment for a different valid bid (the provider's own or a replayed one) is never surfaced; at most one delivery per provider; the number of deliveries never exceeds the channel capacity, so no sender blocks and the closer runs once all goroutines returned. Tied to the real SendBid with the real preconfsigner over a scripted topology/streamer: 0..8 providers, 17 reply classes incl. different-valid-bid, replayed bid, foreign/invalid/short signatures, missing parts, error frames, garbage, silence, reset, open/write failures, forced arrival orders, deadline on or off; goroutine count sampled after completion. Whole node: the scenarios of harness/cmd/nodewire (two real nodes built by node.NewNode against a scripted JSON-RPC chain node, driven through their gRPC APIs: stake / allowance present or not, engine accepts or rejects, well-formed or malformed request) are part of this check and are judged by Model/Wiring.",
     "level_note": "Trusted: Lean kernel; harness; liveness is proved under the contract that every blocking stream operation returns by the caller's deadline (stream.ReadMsg/WriteMsg select on ctx); real goroutine scheduling is sampled, not proved. When the deadline passes, a ready delivery may lose the select against ctx.Done (Go picks at random): deliveries are then compared as a sub-multiset.",
     "nontrivial_rule": "distinct (tag, multiset of reply classes, deadline) cells",
     "class_of": lambda c, r: "%s|%s|%s" % (c["in"]["tag"], sorted(p["class"] for p in (c["in"]["providers"] or [])), c["in"]["deadline"]),
@@ -217,7 +220,8 @@ PROPS["C05"] = {
 PROPS["C04"] = {
     "harness": {"kind": "overlay", "pkg": "pkg/p2p/libp2p", "pkgname": "libp2p",
                 "files": ["libp2p/c04_test.go"], "test": "TestVerifC04"},
-    "level_text": "Theorems for every remote transcript (arbitrary frame lists), both directions, every local role, every registry answer and every primitive answer: characterisation of verifyReq (success iff the signature over exactly role||token verifies, to the address of the authenticated transport identity, and - for the exact role string 'provider' - the registry confirmed it; the registry is consulted at most once and only after the signature and address checks passed); a peer is admitted with (A,T) by the responder only if its first frame is such a request and its second frame echoes the node's own address and role, and by the initiator only if the responder first echoed the initiator's own address and role and then presented such a request; a peer obtains the provider role only through the exact string the stake check keys on (role strings regenerated from p2p.go); registration and notification happen only after success, signature/address failures are blocked forever and stake failures for the regenerated durations. Tied to the real handshake.Service built as libp2p.New builds it (real signer, real GetEthAddressFromPeerID) over a scripted stream, and to the real handleConnectReq / Connect on a Service with a fake libp2p host, real peerRegistry, recording notifier and real block list: message kinds per position x signature classes x role strings (incl. case/whitespace variants) x echoes x truncations x write failures x non-secp256k1 transport identity x registry answers x local roles x direction.",
+    "extra_harnesses": [{"cmd": "nodewire", "tag": "nodewire"}],
+    "level_text": "Theorems for every remote transcript (arbitrary frame lists), both directions, every local role, every registry answer and every primitive answer: characterisation of verifyReq (success iff the signature over exactly role||token verifies, to the address of the authenticated transport identity, and - for the exact role string 'provider' - the registry confirmed it; the registry is consulted at most once and only after the signature and address checks passed); a peer is admitted with (A,T) by the responder only if its first frame is such a request and its second frame echoes the node's own address and role, and by the initiator only if the responder first echoed the initiator's own address and role and then presented such a request; a peer obtains the provider role only through the exact string the stake check keys on (role strings regenerated from p2p.go); registration and notification happen only after success, signature/address failures are blocked forever and stake failures for the regenerated durations. Tied to the real handshake.Service built as libp2p.New builds it (real signer, real GetEthAddressFromPeerID) over a scripted stream, and to the real handleConnectReq / Connect on a Service with a fake libp2p host, real peerRegistry, recording notifier and real block list: message kinds per position x signature classes x role strings (incl. case/whitespace variants) x echoes x truncations x write failures x non-secp256k1 transport identity x registry answers x local roles x direction. Whole node: the scenarios of harness/cmd/nodewire (two real nodes built by node.NewNode against a scripted JSON-RPC chain node, driven through their gRPC APIs: stake / allowance present or not, engine accepts or rejects, well-formed or malformed request) are part of this check and are judged by Model/Wiring.",
     "level_note": "Trusted: Lean kernel; harness; libp2p's authentication of the remote peer id (connection security) is assumed; ECDSA recovery/verification answers come from go-ethereum directly and are parameters of the theorems; an unknown role string is admitted with role 'unknown' (allowed by the statement's 'only if', recorded).",
     "nontrivial_rule": "distinct (tag, direction, level, model observation) cells",
     "class_of": lambda c, r: "%s|%s|%s|%s" % (c["in"]["tag"], c["in"]["inbound"], c["in"]["level"], json.dumps(r.get("model"), sort_keys=True)),
